@@ -169,7 +169,7 @@ class ExcSpec(object):
 # request classes
 
 OK_METHODS = ['prims', 'echo', 'inners', 'multi', 'noargs', 'nothing', 'sub',
-              'strict', 'pa', 'poly']
+              'strict', 'pa', 'poly', 'item1', 'item2']
 
 
 def build_request(uni, in_prot, rclass, rng):
